@@ -1079,3 +1079,112 @@ func rulesLocalClamp(c *Ctx, r *Report) {
 	}
 	r.floor("CLAMP", n, 5, "score stores in Local (2 edges x (score, gap-open) + decideOnStep)")
 }
+
+// traceLoopVar: the integer phi that indexes the table (parameter 0) in a traceback function.
+func traceLoopVar(f *ssa.Function) *ssa.Phi {
+	var iphi *ssa.Phi
+	instrs(f, func(in ssa.Instruction) {
+		phi, ok := in.(*ssa.Phi)
+		if !ok || !types.Identical(phi.Type(), types.Typ[types.Int]) {
+			return
+		}
+		for _, ref := range *phi.Referrers() {
+			if ia, ok := ref.(*ssa.IndexAddr); ok && len(f.Params) > 0 && ia.X == f.Params[0] && ia.Index == phi {
+				iphi = phi
+			}
+		}
+	})
+	return iphi
+}
+
+// rulesTraceStop (STOP): the traceback loops leave only where the algorithm says: Global's when the index
+// reaches the origin, Local's additionally at the first cell whose score is 0.
+func rulesTraceStop(c *Ctx, r *Report) {
+	for _, spec := range []struct {
+		name, role string
+		local      bool
+	}{{"Global", "align.traceGlobal", false}, {"Local", "align.traceLocal", true}} {
+		a := loadAlign(c, r, spec.name, spec.role)
+		if a == nil {
+			continue
+		}
+		f := a.traceFn
+		where := fname(f)
+		iphi := traceLoopVar(f)
+		if iphi == nil {
+			r.undecided("STOP", where, "trace loop", c.pos(f.Pos()), "no loop variable indexing the table found")
+			continue
+		}
+		loop := naturalLoop(iphi.Block())
+		isZero := func(v ssa.Value) bool {
+			k, ok := v.(*ssa.Const)
+			return ok && k.Value != nil && isZeroConst(k)
+		}
+		isScoreAtI := func(v ssa.Value) bool {
+			ld, ok := v.(*ssa.UnOp)
+			if !ok || ld.Op != token.MUL {
+				return false
+			}
+			fa, ok := ld.X.(*ssa.FieldAddr)
+			if !ok || fa.Field != 0 {
+				return false
+			}
+			ia, ok := fa.X.(*ssa.IndexAddr)
+			return ok && ia.X == ssa.Value(f.Params[0]) && ia.Index == ssa.Value(iphi)
+		}
+		nIndex, nScore := 0, 0
+		var other []string
+		for b := range loop {
+			iff, ok := lastInstr(b).(*ssa.If)
+			if !ok {
+				continue
+			}
+			for k, su := range b.Succs {
+				if loop[su] {
+					continue
+				}
+				if _, isPanic := lastInstr(su).(*ssa.Panic); isPanic {
+					continue
+				}
+				bo, ok := iff.Cond.(*ssa.BinOp)
+				if !ok {
+					other = append(other, "condition "+iff.Cond.Name()+" at "+c.pos(iff.Cond.Pos()))
+					continue
+				}
+				x, y, op := bo.X, bo.Y, bo.Op
+				if isZero(x) {
+					x, y = y, x
+					switch op {
+					case token.LSS:
+						op = token.GTR
+					case token.GTR:
+						op = token.LSS
+					case token.LEQ:
+						op = token.GEQ
+					case token.GEQ:
+						op = token.LEQ
+					}
+				}
+				switch {
+				case x == ssa.Value(iphi) && isZero(y):
+					nIndex++
+				case spec.local && isScoreAtI(x) && isZero(y) &&
+					(k == 0 && (op == token.EQL || op == token.LEQ) || k == 1 && (op == token.NEQ || op == token.GTR)):
+					nScore++
+				default:
+					other = append(other, newSymb(f).expr(bo).String()+" at "+c.pos(bo.Pos()))
+				}
+			}
+		}
+		sort.Strings(other)
+		if spec.local {
+			r.check(len(other) == 0 && nScore > 0 && nIndex > 0, "STOP", where, "loop exits", c.pos(iphi.Pos()),
+				fmt.Sprintf("the traceback leaves its loop only when the index reaches the origin (%d) or at a cell whose score is 0 (%d): the returned steps start where the best local alignment starts", nIndex, nScore),
+				fmt.Sprintf("the traceback leaves its loop on a condition other than index-at-origin or score == 0 at the current cell (other exits: %v; score exits: %d): the steps returned need not add up to the returned score", other, nScore))
+		} else {
+			r.check(len(other) == 0 && nIndex > 0, "STOP", where, "loop exits", c.pos(iphi.Pos()),
+				"the traceback leaves its loop only when the index reaches the origin: the steps cover both sequences entirely",
+				fmt.Sprintf("the traceback can leave its loop before the origin (exits at %v): the steps need not cover both sequences", other))
+		}
+	}
+}
